@@ -50,13 +50,13 @@ LogonOK == In(R("A", 0))
 \* ---- family "seq": C01 (order, exactly once) and C04 (gap recovery)
 SeqEvents ==
     Lifecycle \cup {LogonOK, In([R("A", 2) EXCEPT !.hb = 30])}
-    \cup {In(R("D", rs)) : rs \in {-1, 0, 1, 2}}
+    \cup {In(R("D", rs)) : rs \in {-1, 0, 1, 2, 3}}
     \cup {In(PossDup(R("D", rs))) : rs \in {-1, 0, 1}}
     \cup {In([R("D", 0) EXCEPT !.app = v]) : v \in {"rej", "biz"}}
     \cup {In(R("0", rs)) : rs \in {0, 1}}
     \cup {In([R("1", 0) EXCEPT !.trid = "T1"])}
     \cup {In([PossDup(R("4", rs)) EXCEPT !.gf = "Y", !.rn = rn]) : rs \in {-1, 0, 1}, rn \in {0, 1, 2, 3}}
-    \cup {In([R("4", 0) EXCEPT !.rn = rn]) : rn \in {-1, 2}}
+    \cup {In([R("4", rs) EXCEPT !.rn = rn]) : rs \in {-2, 0, 1}, rn \in {-1, 0, 2}}    \* reset mode: MsgSeqNum not checked
     \cup {In([R("2", rs) EXCEPT !.b = 1, !.e = 0]) : rs \in {0, 1}}
     \cup {In(R("5", rs)) : rs \in {0, 1}}
 
@@ -91,7 +91,7 @@ LifeEvents ==
     \cup {In(R("5", rs)) : rs \in {-1, 0, 1}}
     \cup {In(R("D", rs)) : rs \in {0, 1}}
     \cup {In(R("0", 0)), In([R("D", 0) EXCEPT !.cid = "wrong"]), In(R("garbled", 0))}
-    \cup {In([R("4", 0) EXCEPT !.rn = rn]) : rn \in {-1, 0, 2}}
+    \cup {In([R("4", rs) EXCEPT !.rn = rn]) : rs \in {-2, 0, 2}, rn \in {-1, 0, 1, 2}}      \* reset mode: MsgSeqNum not checked
     \cup {In([PossDup(R("4", rs)) EXCEPT !.gf = "Y", !.rn = rn]) : rs \in {-1, 0}, rn \in {-1, 0, 2}}
     \cup {Pre(R("D", 0)), Pre(R("5", 0)), Pre(R("0", 0)), Pre([R("1", 0) EXCEPT !.trid = "T1"])}
 
@@ -157,7 +157,13 @@ O == ObsOf(eng, lastEv', eng')
 \* violate, each restricted to the situation in which it does, so that TLC keeps checking
 \* everything else.  The same situations are the signatures matched on real traces.
 Known(p, c, o) ==
-    CASE p = "C08" /\ c \in {"deliverInsideLogon", "oneLogoutPerPeriod"} ->
+    CASE p = "C04" /\ c = "keepsEarly" ->
+            \* KF-T: a message above the expected number that arrives while the requested range is
+            \* just completing is dropped with the recovery state when a hole remains below it
+            o.pre.st \in Recovering /\ o.post.st \notin Recovering
+      [] p = "C20" /\ c = "recoveryUndisturbed" ->
+            o.pre.st \in Recovering /\ o.post.st \notin Recovering
+      [] p = "C08" /\ c \in {"deliverInsideLogon", "oneLogoutPerPeriod"} ->
             \* KF-O: frames still buffered when the connection ends are processed after OnLogout
             o.pre.inbuf > 0
       [] p = "C20" /\ c = "disconnectOnSecondSilence" -> o.pre.inbuf > 0
